@@ -427,7 +427,24 @@ def o8_structures(tier):
     ops = small_qubit_ops(2, 2)
     pairs = list(itertools.product(range(len(ops)), repeat=2))
     step = 29 if tier == "quick" else 5
-    return [{"a": ops[i], "b": ops[j], "n": 2, "ca": k % 4, "cb": (k // 3) % 4} for k, (i, j) in enumerate(pairs[::step])]
+    sts = [{"a": ops[i], "b": ops[j], "n": 2, "ca": k % 4, "cb": (k // 3) % 4} for k, (i, j) in enumerate(pairs[::step])]
+    # wide registers, around the machine-word boundaries of any integer packing of a Pauli word: words that differ only on the lowest / highest qubits, and
+    # products that contain duplicates to be summed
+    def word(n, **at):
+        w = ["I"] * n
+        for k, p in at.items():
+            w[int(k[1:]) if int(k[1:]) >= 0 else n + int(k[1:])] = p
+        return "".join(w)
+    for n in ((31, 32, 33, 64, 65) if tier == "quick" else (16, 31, 32, 33, 34, 48, 63, 64, 65, 70, 128)):
+        last = n - 1
+        a1 = [word(n, q0="X", **{f"q{last}": "Y"}), word(n, q1="Z", **{f"q{last}": "Y"})]
+        b1 = [word(n, **{f"q{last}": "Z"})]
+        a2 = [word(n, q0="X"), word(n, q0="X", **{f"q{last}": "Z"})]
+        b2 = [word(n), word(n, **{f"q{last}": "Z"})]
+        a3 = [word(n, q0="Y", q1="X"), word(n, q1="X", **{f"q{last - 1}": "Z"})]
+        b3 = [word(n, q0="Z"), word(n, q1="Y", **{f"q{last}": "X"})]
+        sts += [{"a": a1, "b": b1, "n": n, "ca": 0, "cb": 2}, {"a": a2, "b": b2, "n": n, "ca": 2, "cb": 0}, {"a": a3, "b": b3, "n": n, "ca": 3, "cb": 1}]
+    return sts
 
 
 @contract("C16", "O8.MultiformOperator.mul_commute", level="B", structures=o8_structures,
